@@ -1,0 +1,69 @@
+//go:build verif
+
+package channels
+
+// Contracts for the govc verifier (/verif/DESIGN.md). Package clause and comments only.
+//
+// C17 kernel: the goroutine behind BufferedPipe. Channel ghost state is what THIS goroutine did on a channel
+// (/verif/engine/cmd/govc/chans.go): recv(c)[0..recvlen(c)) the values it received, sent(c)[0..sentlen(c)) the values it
+// sent, recvevents(c) how many receives completed, recvoffers(c) in how many selects it offered a receive, selects()
+// how many selects it executed. The deque is the window data[front..back) of a ghost sequence (/verif/specs/deque.gocl).
+//
+// pipeInv: everything received from the writer channel has been sent to the reader channel, in order, or is still in
+// the buffer, in order - nothing lost, nothing duplicated, nothing reordered, whatever the select picks.
+
+//@ import context "context"
+//@ import deque "github.com/gammazero/deque"
+
+//@ pure func pipeInv(w chan T, r chan T, q *deque.Deque[T]) bool {
+//@   q != nil && q.front == sentlen(r) && q.back == recvlen(w) && q.front <= q.back
+//@   && (forall i int :: 0 <= i && i < sentlen(r) ==> sentat(r, i) == recvat(w, i))
+//@   && (forall i int :: q.front <= i && i < q.back ==> q.data[i] == recvat(w, i))
+//@ }
+
+//@ func BufferedPipe$1() T
+//@   requires buffer != nil
+//@   nomod
+//@   ensures buffer.back > buffer.front ==> result == buffer.data[buffer.front]
+
+//@ func BufferedPipe$2() chan T
+//@   requires buffer != nil && readerC != nil
+//@   nomod
+//@   ensures buffer.back > buffer.front ==> result == readerC
+//@   ensures buffer.back <= buffer.front ==> result == nil
+
+//@ func BufferedPipe$3()
+//@   requires chans: readerC != nil && writerC != nil && readerC != writerC && ctx != nil && buffer != nil
+//@   requires distinct: ctxDone(ctx) != readerC && ctxDone(ctx) != writerC
+//@   requires start: sentlen(readerC) == 0 && recvlen(writerC) == 0 && buffer.front == 0 && buffer.back == 0
+//@   requires fresh: !chanclosed(readerC) && recvevents(ctxDone(ctx)) == 0 && selects() == 0 && recvoffers(writerC) == 0
+//@   fparam getNext() T
+//@     nomod
+//@     ensures buffer.back > buffer.front ==> result == buffer.data[buffer.front]
+//@   endfparam
+//@   fparam getReaderC() chan T
+//@     nomod
+//@     ensures buffer.back > buffer.front ==> result == readerC
+//@     ensures buffer.back <= buffer.front ==> result == nil
+//@   endfparam
+//@   ensures closed: chanclosed(readerC)
+//@   ensures prefix: pipeInv(writerC, readerC, buffer)
+//@   ensures allDelivered: recvevents(ctxDone(ctx)) == 0 ==> sentlen(readerC) == recvlen(writerC)
+//@   loop 0
+//@     invariant inv: pipeInv(writerC, readerC, buffer)
+//@     invariant open: !chanclosed(readerC) && recvevents(ctxDone(ctx)) == 0
+//@     invariant neverBlocksWriter: recvoffers(writerC) == selects()
+//@   loop 1
+//@     invariant inv: pipeInv(writerC, readerC, buffer)
+//@     invariant open: !chanclosed(readerC) && recvevents(ctxDone(ctx)) == 0
+
+// Submit and Receive: one select each; what they report is what happened on the channel.
+//@ func Submit(ctx context.Context, channel chan T, value T) bool
+//@   requires ctx != nil && ctxDone(ctx) != channel && !chanclosed(channel)
+//@   ensures sent: result ==> sentlen(channel) == old(sentlen(channel)) + 1 && sentat(channel, old(sentlen(channel))) == value
+//@   ensures notSent: !result ==> sentlen(channel) == old(sentlen(channel))
+
+//@ func Receive(ctx context.Context, inC chan T) (T, bool)
+//@   requires ctx != nil && ctxDone(ctx) != inC
+//@   ensures got: result.1 ==> recvlen(inC) == old(recvlen(inC)) + 1 && recvat(inC, old(recvlen(inC))) == result.0
+//@   ensures none: !result.1 ==> recvlen(inC) == old(recvlen(inC))
